@@ -33,6 +33,9 @@ pub struct DropCase {
     /// Fill the submission queue before the drops (no room for a cancel).
     pub full_queue: bool,
     pub drop_tape: Vec<u16>,
+    /// Priority schedule (few preemptions, long runs) instead of the tape.
+    #[serde(default)]
+    pub pct: Option<sched::Pct>,
 }
 
 type Fut = Pin<Box<a10::io::Write<'static, Vec<u8>>>>;
@@ -183,7 +186,7 @@ pub fn run(case: &DropCase, ctx: &mut Ctx) -> Vec<&'static str> {
             *ring_slot.lock().unwrap() = ring;
         }));
     }
-    let outcome = sched::run(case.drop_tape.clone(), 20_000, false, threads);
+    let outcome = sched::run_either(&case.pct, &case.drop_tape, 20_000, false, threads);
     world.ring = ring_slot.lock().unwrap().take().map(|r| r.0);
     if outcome.over_budget {
         ctx.infra("scheduler step budget exceeded");
